@@ -508,6 +508,10 @@ DoStore(ln) ==
                                               a == Voters(tab, p)
                                               b == Voters(tab, ln.entries[j][4])
                                           IN p # NoCfg /\ Cardinality((a \ b) \cup (b \ a)) > 1}}
+      \* a leader appends a configuration only after an entry of its own term is committed - by the omniscient definition,
+      \* whatever its own commit index says (a user Restore, for one, moves indexes without any acknowledgement)
+      vOwnTerm == {<<"C07", "ConfigBeforeOwnTermCommit", <<n, ln.entries[k][1], obs[n].term>>>> :
+                     k \in {j \in cfgK : ~\E i \in DOMAIN ag1 : ag1[i][1] = obs[n].term}}
       \* routine compaction removes only entries at or below the newest snapshot and leaves at least TrailingLogs entries
       vCompact == IF isDR /\ Has(ln, "by") /\ ln.by = "compact"
                           /\ \E k \in DOMAIN dlog[n] : ln.min <= k /\ k <= ln.max        \* it removes something
@@ -517,7 +521,7 @@ DoStore(ln) ==
                   ELSE {}
   IN /\ g' = [g EXCEPT !.dur[n] = d2, !.grants = @ \cup gr, !.agreed = ag2]
      /\ dlog' = dl2 /\ obs' = o2
-     /\ Judge(V \cup conf \cup vStepCfg \cup vCompact, {}) /\ UNCHANGED <<hdr, dsnaps>>
+     /\ Judge(V \cup conf \cup vStepCfg \cup vOwnTerm \cup vCompact, {}) /\ UNCHANGED <<hdr, dsnaps>>
 
 DoFsm(ln) ==
   LET n == ln.n IN
